@@ -1304,6 +1304,92 @@ func c11Construction(p *core.Program, r *core.Report, m *c11Model, nk *eng.NodeK
 	if n == 0 {
 		r.Bad("R11.6", "climbing loop/construction", p.Pos(m.climb.Pos()), "the climbing loop builds no node from its two operands")
 	}
+	// who may build a two-operand node: every literal of a kind with a Left and a Right slot in
+	// the parser is one of the literals above (its right operand is the result of the climbing
+	// recursion), or sits in a helper of the parser whose Right comes from a parameter that the
+	// climbing loop feeds with such a result. A right operand parsed any other way (a primary,
+	// a fixed level) binds differently from the table.
+	for _, fd := range p.FuncDecls("parser") {
+		if fd.Body == nil {
+			continue
+		}
+		var params []types.Object
+		if fd.Type.Params != nil {
+			for _, f := range fd.Type.Params.List {
+				for _, nm := range f.Names {
+					params = append(params, info.Defs[nm])
+				}
+			}
+		}
+		k2 := 0
+		ast.Inspect(fd.Body, func(nd ast.Node) bool {
+			e, ok := nd.(ast.Expr)
+			if !ok {
+				return true
+			}
+			cl, k := nodeLit(nk, info, e)
+			if cl == nil || cl != eng.Unparen(stripAmp(e)) {
+				return true
+			}
+			if _, isLit := e.(*ast.CompositeLit); isLit {
+				return true
+			}
+			hasL, hasR := false, false
+			for _, sl := range k.Slots {
+				if sl.Name == "Left" {
+					hasL = true
+				}
+				if sl.Name == "Right" {
+					hasR = true
+				}
+			}
+			if !hasL || !hasR {
+				return true
+			}
+			var right ast.Expr
+			for _, el := range cl.Elts {
+				if kv, ok := el.(*ast.KeyValueExpr); ok && eng.ExprStr(kv.Key) == "Right" {
+					right = kv.Value
+				}
+			}
+			k2++
+			key := fmt.Sprintf("%s/%s literal#%d takes its right operand from the climbing recursion", core.FuncName("parser", fd), k.Name, k2)
+			okR, why := false, "the Right child is `"+eng.ExprStr(right)+"`"
+			if id, isID := eng.Unparen(right).(*ast.Ident); isID && right != nil {
+				obj := objOf(info, id)
+				switch {
+				case fd == m.climb && rightVars[obj]:
+					okR = true
+				default:
+					// a parameter fed by the climbing loop with a result of the recursion
+					for pi, po := range params {
+						if po != obj {
+							continue
+						}
+						fed, all := 0, true
+						fnObj := info.Defs[fd.Name]
+						ast.Inspect(m.climb.Body, func(x ast.Node) bool {
+							c, ok := x.(*ast.CallExpr)
+							if !ok || eng.CalleeOf(info, c) != fnObj || pi >= len(c.Args) {
+								return true
+							}
+							fed++
+							if aid, ok := eng.Unparen(c.Args[pi]).(*ast.Ident); !ok || !rightVars[objOf(info, aid)] {
+								all = false
+							}
+							return true
+						})
+						okR = fed > 0 && all
+						if !okR {
+							why = "the Right child is the parameter `" + id.Name + "`, which the climbing loop does not (only) feed with a result of its recursion"
+						}
+					}
+				}
+			}
+			r.Check(okR, "R11.6", key, p.Pos(cl.Pos()), "right operand = result of the climbing recursion at the operator's level", why+": the right operand of this operator is not parsed at the level the table gives it, so `a op b + c` groups differently from the documented precedence")
+			return true
+		})
+	}
 	// the loop must re-read the current token after building (else it loops on a stale operator):
 	// covered by the suite immediately, not a rule here.
 
